@@ -62,6 +62,17 @@ def run(ck, ctx):
         other = [s for s in f.node.body if not isinstance(s, (ast.If, ast.Raise)) and not (isinstance(s, ast.Expr) and isinstance(s.value, ast.Constant))]
         ck.ob("T-EXC", f"{f.qual} has no other effect", not other,
               "the error hook must not alter parser state (results with silent=True/False must agree)", f.loc())
+    # PLY calls p_error(None) at end of input: the hook must not dereference its argument unguarded
+    pe = m.parser_method("p_error")
+    pname = [p for p in pe.params if p != "self"][0]
+    for n in ast.walk(pe.node):
+        if isinstance(n, (ast.Attribute, ast.Subscript)) and isinstance(n.value, ast.Name) and n.value.id == pname:
+            atoms = guard_atoms(pe.node, S.stmt_of(pe, n))
+            guarded = any(a in atoms for a in ((pname, True), (f"{pname} is not None", True), (f"{pname} is None", False),
+                                               (f"not {pname}", False)))
+            ck.ob("T-EXC", f"p_error: `{ast.unparse(n)}` is guarded against p=None", guarded,
+                  "PLY calls p_error(None) when the input ends inside a statement: an unguarded attribute access raises "
+                  "AttributeError instead of DDLParserError (silent=False) / instead of skipping (silent=True)", pe.loc(n))
     # unknown output_mode
     run_f = m.parser_method("run")
     raises = [n for n in ast.walk(run_f.node) if isinstance(n, ast.Raise)]
